@@ -58,6 +58,21 @@ def replay_state(st):
                     bad.append(("C12.dist-scaling", dict(relative=rel, **w), want.tolist(), got.tolist(), c))
             except Exception as ex:
                 bad.append(("C12.no-error", dict(op="gamut_dist_scaling", relative=rel, exc=type(ex).__name__, **w), None, repr(ex)[:200], c))
+            # the same values in other representations: the neutral point normalised to sum 1 (only its direction
+            # matters), and integer-valued target sets handed over as an integer array
+            reps = [("neutral-normalised", B.copy(), {"neutral_point": nu0 / nu0.sum()})]
+            if np.all(B == np.rint(B)):
+                reps.append(("int-targets", B.astype(int), {"neutral_point": nu0 / nu0.sum()}))
+                reps.append(("int-targets-default-neutral", B.astype(int), kw))
+            for rname, Brep, kwr in reps:
+                if rname == "int-targets-default-neutral" and not default_neutral:
+                    continue
+                try:
+                    got = np.asarray(est.gamut_dist_scaling(Brep, relative=rel, **kwr), float)
+                    if got.shape != want.shape or np.max(np.abs(got - want)) > 1e-7 * (1 + np.max(np.abs(want))):
+                        bad.append(("C12.dist-scaling", dict(relative=rel, representation=rname, **w), want.tolist(), got.tolist(), c))
+                except Exception as ex:
+                    bad.append(("C12.no-error", dict(op="gamut_dist_scaling", relative=rel, representation=rname, exc=type(ex).__name__, **w), None, repr(ex)[:200], c))
     # absolute capture on a system with adaptation / baseline registered: must equal the plain system's answer
     if not plain:
         try:
